@@ -117,6 +117,53 @@ CHECKS["C18"] = dict(
     engine="tlc+replay",
 )
 
+CHECKS["C05"] = dict(
+    built=True,
+    category="model_checking",
+    technique="TLA+ spec J2O_Pipeline checked by TLC over all requests; emitted requests realised as real to_onnx calls and compared with the predicted interface and jax.eval_shape; per-stage interface traces validated by J2O_PipelineTrace",
+    text=(
+        "J2O_Pipeline models one conversion stage by stage on the abstract interface (ordered positional / NCHW / parameter inputs, one output per result leaf) "
+        "for every request: arity 0-2, any subset of unused inputs, result kinds (computed, input returned unchanged, constant, duplicated leaf, nested pytree), "
+        "six input-name and five output-name variants, five layout selections each, runtime parameter used or not, faults, optimizer abort index and policy "
+        "(1.5M states). TLC checks PositionalStable, OutputsPerLeaf, NamesApplied, RejectIffBad. Hundreds of emitted requests (all value of every request dimension covered) "
+        "run through the REAL to_onnx: it must raise exactly when predicted; inputs must be the predicted names in order; outputs per leaf; element class, float width under the "
+        "precision flag, integer type, rank, static dims and user symbol names are compared with jax.eval_shape. The interface logged after every real stage is validated by TLC."
+    ),
+    note="Trusted: jax.eval_shape, TLC. Requests are realised by one template family; a runtime parameter is only required to appear as an input when the graph references it. One listed known finding (input returned unchanged + names on both sides).",
+    design_ref="DESIGN.md §2 J2O_Pipeline, §3 C05",
+    engine="tlc+replay+trace-validation",
+)
+CHECKS["C16"] = dict(
+    built=True,
+    category="fault_enumeration",
+    technique="TLA+ specs J2O_Pipeline (abort policy at every pass index) and J2O_GraphRewrite (every prefix of rewrites) checked by TLC; real optimizer made to raise at every pass index / function-body pass / n-th graph mutation; unsupported constructs and TLC-emitted faulty requests replayed",
+    text=(
+        "Crash points are enumerated on the real code: the optimizer raises before pass k for every k of the registry (top-level loop, 9 programs whose graphs the passes really change, "
+        "incl. NCHW, @onnx_function, Loop body, Swish rewrite, nnx Dropout), at every pass of the function-body loop, and inside passes at the n-th replace_all_uses_with. "
+        "Default policy must return a model that passes checker(full) + strict inference, runs, and equals JAX; the strict policy must re-raise. "
+        "Unsupported constructs (unregistered primitive at top level / in a loop body / in a function body / in a branch, 3-way switch, reverse scan, dynamic fori bounds) must raise; "
+        "a returned model must be complete and right. TLC proves the abort policy on J2O_Pipeline and OutputsPreserved after every prefix of rewrites on J2O_GraphRewrite; "
+        "TLC-emitted faulty requests are replayed (raise exactly when predicted)."
+    ),
+    note="Faults are injected from outside by wrapping the pass runner and onnx_ir.convenience.replace_all_uses_with. One listed known finding: passes are not atomic (abort INSIDE a pass).",
+    design_ref="DESIGN.md §3 C16",
+    engine="fault-injection+tlc",
+)
+CHECKS["C12"] = dict(
+    built=True,
+    category="model_checking",
+    technique="TLA+ specs J2O_GraphRewrite (boundary transpose neighbourhoods) and J2O_Pipeline (layout selection validation) checked by TLC; pattern graphs replayed through the real passes; 4-D programs exported with every subset of layout flags and compared with the plain export and JAX in ORT",
+    text=(
+        "Boundary Transpose pairs around elementwise chains with every side-operand kind, reductions and Add forests are the tchain/treduce/addforest neighbourhoods of J2O_GraphRewrite (TLC: outputs preserved); "
+        "those graphs go through the real passes (ORT before/after). 13 programs with 4-D inputs/outputs (relu, channel-vector bias and max, residual add of two inputs, mean over H,W, multi-consumer with two outputs, "
+        "output = input, mixed-rank outputs, internal transposes/reshapes, nnx.Conv, avg_pool) are exported plain and with EVERY subset of flagged inputs and 4-D outputs: ORT(flagged)(NCHW x) must equal "
+        "NCHW(ORT(plain)(x)) and NCHW(JAX(x)), unflagged I/O unchanged, declared input shapes permuted; out-of-range, negative, duplicate, boolean indices and non-4-D selections must be rejected."
+    ),
+    note="Trusted: ORT. Quick tier uses one tensor shape per program, thorough adds square spatial dims (a layout mix-up stays shape-valid).",
+    design_ref="DESIGN.md §3 C12",
+    engine="tlc+replay+ort",
+)
+
 TITLES = {}
 for line in (VERIF / "properties.jsonl").read_text().splitlines():
     if line.strip():
